@@ -216,7 +216,7 @@ def fresh_process_runs(ctx, progs, n):
 def run(ctx):
     import df_corpus
 
-    progs = [(n, s) for n, s in df_corpus.programs(ctx.seed, ctx.pick(50, 600), types=("int", "other"))] + EXTRA
+    progs = [(n, s) for n, s in df_corpus.programs(ctx.seed, ctx.pick(24, 600), types=("int", "other"))] + EXTRA
     # ---- (1) schedule enumeration ------------------------------------------------------------
     native = fork_map([(s, "f", None, 0) for _, s in progs])
     for (n, _), r in zip(progs, native):
